@@ -78,6 +78,22 @@ def total_cases(rng, tier):
                     grp.append((rng.randint(0, 5), fr))
                 frames.append(grp)
             cs.append((total_session(rng, kind, arg, frames), f"update-total-{kind}"))
+    # a master with leases receiving release / lookup / request frames that concern exactly those leases
+    for _ in range(12 if tier == "quick" else 150):
+        leases = rng.sample([1, 2, 3, 4, 5, 0o11, 0o21, 0o15, 0o31, 0o121], rng.randint(1, 5))
+        ids = rng.sample(range(1, 255), len(leases))
+        ops = ["new n master 0 0"] + [f"n setaddr {i} {a}" for i, a in zip(ids, leases)]
+        for _ in range(8):
+            a = rng.choice(leases + [0o2, 0o4444, 0])
+            i = rng.choice(ids + [0, 250])
+            fr = rng.choice([
+                _frame(a, 0, rng.randrange(65536), 197, rng.randrange(256), b""),
+                _frame(a, 0, rng.randrange(65536), 196, 0, bytes([i])),
+                _frame(a, 0, rng.randrange(65536), 198, 0, bytes([rng.choice(leases) & 0xFF, rng.choice(leases) >> 8])),
+                _frame(rng.choice([0o4444, a]), 0, rng.randrange(65536), 195, i, b""),
+            ])
+            ops += [f"env inject 0 {rng.randint(1, 5)} {fr}", "n update", "n update"]
+        cs.append(("net 1 0 " + " ; ".join(ops), "master-with-leases"))
     # a handled frame followed by a discarded one in the same update() (stale return value)
     for kind, arg in (("master", 0), ("mesh", 0), ("network", 0o5), ("master", 9)):
         addr = 0 if kind in ("master", "mesh") and arg == 0 else (0o4444 if kind in ("master", "mesh") else arg)
